@@ -32,6 +32,7 @@ SITES == <<
   [site |-> "pkg/runtime/module.go:checkCircularDepedencyDFS:adj#d921dcb2", kind |-> "exists"],
   [site |-> "pkg/runtime/verif_on.go:VerifSnapshot:vm.valueStack#837a36f1", kind |-> "build"],
   [site |-> "pkg/value/object.go:NewObject:model.GetPropList()#998ef5f1", kind |-> "build"],
+  [site |-> "pkg/exec/globals.go:newExecGlobalValues:GlobalValues#9c73dc7c", kind |-> "build"],
   [site |-> "pkg/exec/eval.go:evalImportStmt:library.GetAllExportValues()#d5e3dd7b", kind |-> "build"],
   [site |-> "pkg/exec/eval.go:evalImportStmt:exportValues#59f3bb24", kind |-> "build"],
   [site |-> "pkg/exec/exec_varinput.go:ExecExpressionInputText:exprStrMap#966fa845", kind |-> "build"],
